@@ -255,4 +255,15 @@ def okGroup (fs : List Feat) (ans : Option (List Group)) : Bool :=
          | [t] => (uidsOf fs g.tag .transcript).contains t
          | _ => false)
 
+/-! ### gene biotype of a GenBank locus (GeneFeature.to_gene_model) -/
+
+/-- documented (since 3370634): the most common transcript biotype; ties are broken by name, so the result does not
+    depend on the order of the records.  `none` = raised (no transcript at all). -/
+def okBiotype (types : List Str) (ans : Option Str) : Bool :=
+  match ans with
+  | none => types.isEmpty
+  | some b =>
+    types.contains b &&
+    types.all fun b' => decide (types.count b' < types.count b) || (types.count b' == types.count b && strLe b b')
+
 end BioCantor.Spec.Qual
